@@ -86,6 +86,7 @@ def measure_tb():
             evs.append(x)
     res = testtools.ExtendedToStreamDecorator(testtools.TimestampingStreamResult(testtools.StreamToQueue(Q(), '0')))
     suite = testtools.ConcurrentStreamTestSuite(lambda: [])
+    res.startTestRun()      # run() does this in the calling thread before it starts the worker
     suite._run_test(Worker(0, [], True), res, '0')
     return sum(1 for e in evs if e.get('file_name') is not None)
 
@@ -114,14 +115,12 @@ class C13(Prop):
                 '(run() returns or raises, every started thread ends); on normal return every sub-suite was started, ran once, has terminated and every event it emitted reached '
                 'the caller\'s result exactly once in that worker\'s order (stream: with its route code; suite: one whole well-shaped block at a time - C12\'s invariant incl. '
                 'main\'s stop() calls); on abort what was delivered is still a prefix per worker; a raising sub-suite yields exactly one errored broken-runner test; if run() '
-                'raises the exception is the injected one and every registered worker is told to stop (suite: one stop() per registered worker). PARTIAL: the stream-flavour stop '
-                'clause is proved outside the finding class lostStop (a started worker that has not yet forwarded startTestRun clears the stop request) - the model exhibits the '
-                'defect (witness theorem) and the check reproduces it on the real code. The hand-written model is tied to the code by a differential check that runs the real suites '
-                'in real threads under a deterministic scheduler (bounded-pre-emption exhaustive + random schedules, all fault kinds).',
-        'note': 'partial: (1) known finding lostStop (KNOWN_FINDINGS.txt) - holds_model_partial / C13_abort_partial exclude that class; (2) the theorems cover every '
-                'interleaving of the model\'s atomic steps (operations on queue / semaphore / caller\'s result, thread start/join); CPython pre-emption is reached only through '
-                'the scheduler-driven correspondence. trusted: Lean kernel, TTV/Model/Conc.lean + ConcSuite.lean, harness/sched.py and the plug-in; Thread/Queue/Semaphore '
-                'semantics modelled; KeyboardInterrupt modelled as an exception at queue.get(); traceback chunk count measured',
+                'raises the exception is the injected one and every registered worker is told to stop (suite: one stop() per registered worker; stream: its shouldStop is set and '
+                'no later step clears it, because run() forwards the worker\'s startTestRun itself before starting the thread). The hand-written model is tied to the code by a '
+                'differential check that runs the real suites in real threads under a deterministic scheduler (bounded-pre-emption exhaustive + random schedules, all fault kinds).',
+        'note': 'partial by nature: the theorems cover every interleaving of the model\'s atomic steps (operations on queue / semaphore / caller\'s result, thread start/join); '
+                'CPython pre-emption is reached only through the scheduler-driven correspondence. trusted: Lean kernel, TTV/Model/Conc.lean + ConcSuite.lean, harness/sched.py '
+                'and the plug-in; Thread/Queue/Semaphore semantics modelled; KeyboardInterrupt modelled as an exception at queue.get(); traceback chunk count measured',
         'technique': 'Lean 4 invariant proofs over a small-step interleaving semantics (all schedules, no bound) with a termination measure, executable spec shared with a '
                      'differential correspondence check under a deterministic thread scheduler',
     }
@@ -382,7 +381,7 @@ class C13(Prop):
                 reg = [w for w in trace[3] if w not in trace[4]]
                 f.append('registered-at-abort=%d' % len(reg))
                 if flavour == 'stream' and any(not trace[7][w] for w in reg):
-                    f.append('LOST-STOP')
+                    f.append('STOP-FLAG-LOST')
                 if flavour == 'suite':
                     f.append('main-stop-calls=%d' % sum(1 for e in trace[0] if e[0] == 0 and e[1] == 'call'))
             if any(trace[8]):
